@@ -34,10 +34,84 @@ static void hermite3(Tape& t, Ctx& c)
   default: Check<Space::Hermite3::Element<Trf<S2>>, true, true, true>::run(t, c, e); break;
   }
 }
+// ---------------------------------------------------------------------------------------------------------------
+// Known finding "c15-argyris-pivot" (findings/C15.md #3): Math::invert_matrix pivots on the *diagonal* only; the Argyris
+// nodal matrix (monomials about the barycentre x vertex/edge functionals) has structurally tiny diagonal entries, and for
+// some vertex orders the symmetric pivot search ends up dividing by a rounding-level pivot.  The class is characterised
+// by construction: the harness builds the same nodal matrix from the element's definition, replays the documented
+// pivot rule and calls a cell "pivot-unstable" if a chosen diagonal pivot is < 1e-6 of the largest entry still available
+// in its row or column.  With the switch on, such cells get their local vertex list rotated (an orientation preserving
+// symmetry, so still a legal mesh) until the predicate is false.
+// ---------------------------------------------------------------------------------------------------------------
+static bool argyris_pivot_unstable(const double v[3][2])
+{
+  const int n = 21; double bx = (v[0][0] + v[1][0] + v[2][0]) / 3.0, by = (v[0][1] + v[1][1] + v[2][1]) / 3.0;
+  static double a[21][21]; for(int i = 0; i < n; ++i) for(int j = 0; j < n; ++j) a[i][j] = 0.0;
+  double ev[3][2] = {{0, 0}, {0, 0}, {0, 0}};
+  auto pw = [](double x, double* p) { p[0] = 1.0; for(int l = 0; l < 5; ++l) p[l + 1] = p[l] * x; };
+  for(int vi = 0; vi < 3; ++vi)
+  {
+    double px = v[vi][0] - bx, py = v[vi][1] - by, vx[6], vy[6]; pw(px, vx); pw(py, vy);
+    ev[(vi + 1) % 3][0] += px; ev[(vi + 1) % 3][1] += py; ev[(vi + 2) % 3][0] -= px; ev[(vi + 2) % 3][1] -= py;
+    int k = 0;
+    for(int i = 0; i < 6; ++i) for(int j = 0; i + j < 6; ++j, ++k)
+    {
+      a[k][6 * vi + 0] = vx[i] * vy[j];
+      if(i > 0) a[k][6 * vi + 1] = i * vx[i - 1] * vy[j];
+      if(j > 0) a[k][6 * vi + 2] = j * vy[j - 1] * vx[i];
+      if(i > 1) a[k][6 * vi + 3] = i * (i - 1) * vx[i - 2] * vy[j];
+      if(j > 1) a[k][6 * vi + 4] = j * (j - 1) * vy[j - 2] * vx[i];
+      if(i * j > 0) a[k][6 * vi + 5] = i * vx[i - 1] * j * vy[j - 1];
+    }
+  }
+  for(int ei = 0; ei < 3; ++ei)
+  {
+    double mx = 0.5 * (v[(ei + 1) % 3][0] + v[(ei + 2) % 3][0]) - bx, my = 0.5 * (v[(ei + 1) % 3][1] + v[(ei + 2) % 3][1]) - by, vx[6], vy[6]; pw(mx, vx); pw(my, vy);
+    double dn = std::sqrt(ev[ei][0] * ev[ei][0] + ev[ei][1] * ev[ei][1]), nx = ev[ei][1] / dn, ny = -ev[ei][0] / dn;
+    int k = 0;
+    for(int i = 0; i < 6; ++i) for(int j = 0; i + j < 6; ++j, ++k)
+    {
+      if(i > 0) a[k][18 + ei] += i * nx * vx[i - 1] * vy[j];
+      if(j > 0) a[k][18 + ei] += j * ny * vy[j - 1] * vx[i];
+    }
+  }
+  // replay of the pivot rule of Math::invert_matrix (largest remaining diagonal entry), in-situ Gauss-Jordan
+  int p[21]; for(int i = 0; i < n; ++i) p[i] = i;
+  for(int k = 0; k < n; ++k)
+  {
+    int ib = k; double pv = std::fabs(a[p[k]][p[k]]);
+    for(int j = k + 1; j < n; ++j) if(std::fabs(a[p[j]][p[j]]) > pv) { pv = std::fabs(a[p[j]][p[j]]); ib = j; }
+    std::swap(p[k], p[ib]);
+    const int r = p[k];
+    double avail = 0; for(int j = k; j < n; ++j) avail = std::max(avail, std::max(std::fabs(a[r][p[j]]), std::fabs(a[p[j]][r])));
+    if(!(pv > 1e-6 * avail) || pv == 0.0) return true;
+    double piv = 1.0 / a[r][r]; a[r][r] = 1.0; for(int j = 0; j < n; ++j) a[r][j] *= piv;
+    for(int i = 0; i < n; ++i) { if(i == r) continue; double f = a[i][r]; a[i][r] = 0.0; for(int j = 0; j < n; ++j) a[i][j] -= a[r][j] * f; }
+  }
+  return false;
+}
+struct ArgyrisFix
+{
+  void operator()(MeshData<S2>& md, Ctx& c) const
+  {
+    int bad = 0;
+    for(auto& cl : md.cells)
+    {
+      auto unstable = [&]() { double v[3][2]; for(int k = 0; k < 3; ++k) for(int i = 0; i < 2; ++i) v[k][i] = md.vtx[size_t(cl[size_t(k)])][size_t(i)]; return argyris_pivot_unstable(v); };
+      if(!unstable()) continue;
+      ++bad;
+      if(!c.excl("c15-argyris-pivot")) continue;
+      for(int r = 0; r < 2 && unstable(); ++r) std::rotate(cl.begin(), cl.begin() + 1, cl.end());
+      if(unstable()) throw vf::Discard{"all three rotations of an Argyris cell are pivot-unstable"};
+    }
+    c.label(bad ? "argyris:pivot-unstable-cell" : "argyris:pivot-stable");
+    md.desc.set("pivot_unstable_cells", bad);
+  }
+};
 static void argyris(Tape& t, Ctx& c)
 {
-  ElemCfg e = {"Argyris", 5, false, false, true, 3, 2, 2, 3, 2};
-  Check<Space::Argyris::Element<Trf<S2>>, true, true, true>::run(t, c, e);
+  ElemCfg e = {"Argyris", 5, false, false, true, 3, 2, 2, 3, 2, {nullptr, nullptr, nullptr, nullptr, nullptr}};
+  Check<Space::Argyris::Element<Trf<S2>>, true, true, true>::run(t, c, e, ArgyrisFix());
 }
 static void bfs(Tape& t, Ctx& c)
 {
